@@ -374,6 +374,11 @@ fn h_point(site: &'static str) {
 }
 
 fn h_block(probe: &(dyn Fn() -> bool + Sync), site: &'static str) {
+    // Fast path: the resource is free. Not a scheduling point: the code between the thread's previous point and
+    // this acquisition is local, so "another thread acquires first" is the schedule that preempts at that point.
+    if probe() {
+        return;
+    }
     // lifetime erasure: the closure lives on the parked thread's stack for as long as it is parked
     let p: *const (dyn Fn() -> bool + Sync) = unsafe { std::mem::transmute(probe) };
     sched().yield_with(Status::Blocked, site, Some(ProbePtr(p)));
@@ -489,11 +494,15 @@ pub struct ExploreStats {
     pub capped: bool,
     pub replay_checks: u64,
     pub replay_divergences: u64,
+    /// largest preemption count c such that every schedule with <= c preemptions was executed
+    pub completed_bound: Option<usize>,
 }
 
-/// Iterative context bounding: every schedule with at most `bound` preemptions, each exactly once.
-/// `run(choices)` executes the body once under the given choice prefix. `visit` sees every execution;
-/// returning `false` stops the exploration. `shard` = (index, count) partitions the top-level branches.
+/// Iterative context bounding, cheapest first: schedules are executed in order of their number of preemptions
+/// (all with 0, then all with 1, ...), each exactly once, up to `bound`. `run(choices)` executes the body once under
+/// the given choice prefix. `visit` sees every execution; returning `false` stops the exploration.
+/// `shard` = (index, count) partitions the top-level branches. `completed_bound` = largest c such that every
+/// schedule with <= c preemptions (of this shard) was executed.
 pub fn explore_schedules<R>(
     bound: usize,
     deadline: Instant,
@@ -501,23 +510,48 @@ pub fn explore_schedules<R>(
     run: &mut dyn FnMut(&[usize]) -> Exec<R>,
     visit: &mut dyn FnMut(&Exec<R>, &[usize]) -> bool,
 ) -> ExploreStats {
-    let mut stats = ExploreStats { schedules: 0, decisions: 0, max_preemptions_seen: 0, capped: false, replay_checks: 0, replay_divergences: 0 };
-    // explicit stack of prefixes; a prefix is explored by running it (then default choices) and branching after it
-    let mut stack: Vec<(Vec<usize>, bool)> = vec![(vec![], true)];
+    use std::rc::Rc;
+    let mut stats = ExploreStats { schedules: 0, decisions: 0, max_preemptions_seen: 0, capped: false, replay_checks: 0, replay_divergences: 0, completed_bound: None };
+    // queues[c] = pending prefixes whose own cost is c: (parent choices, branch position, alternative)
+    let mut queues: Vec<std::collections::VecDeque<(Rc<Vec<usize>>, usize, usize)>> = (0..=bound).map(|_| Default::default()).collect();
+    let mut root_done = false;
     let mut top_branch_idx = 0usize;
-    while let Some((prefix, is_root)) = stack.pop() {
+    let mut stopped = false;
+    loop {
+        // next prefix: the root first, then the cheapest queue
+        let (prefix, is_root, cost_of_prefix): (Vec<usize>, bool, usize) = if !root_done {
+            root_done = true;
+            (vec![], true, 0)
+        } else {
+            let mut next = None;
+            for c in 0..=bound {
+                if let Some((parent, i, alt)) = queues[c].pop_front() {
+                    let mut p = parent[..i].to_vec();
+                    p.push(alt);
+                    next = Some((p, false, c));
+                    break;
+                } else if stats.completed_bound.map(|b| b < c).unwrap_or(true) {
+                    // every schedule with cost <= c has been executed (children only ever cost >= their parent)
+                    stats.completed_bound = Some(c);
+                }
+            }
+            match next {
+                Some(n) => n,
+                None => break,
+            }
+        };
+        let _ = cost_of_prefix;
         if Instant::now() >= deadline {
             stats.capped = true;
             break;
         }
         let x = run(&prefix);
-        let choices = choices_of(&x.trace);
+        let choices = Rc::new(choices_of(&x.trace));
         let execute_visit = !is_root || shard.0 == 0;
         if execute_visit {
             stats.schedules += 1;
             stats.decisions += x.trace.len() as u64;
             stats.max_preemptions_seen = stats.max_preemptions_seen.max(preemptions(&x.trace));
-            // determinism: replay the first and every 64th schedule
             if stats.schedules == 1 || stats.schedules % 64 == 0 {
                 let y = run(&choices);
                 stats.replay_checks += 1;
@@ -528,42 +562,37 @@ pub fn explore_schedules<R>(
                 }
             }
             if !visit(&x, &choices) {
+                stopped = true;
                 break;
             }
         }
         if matches!(x.end, EndState::Diverged(_) | EndState::Stuck(_)) {
             continue;
         }
-        // branch at every decision point after the prefix
         let mut cost = 0usize;
-        let mut new_items = vec![];
         for (i, d) in x.trace.iter().enumerate() {
             if i >= prefix.len() {
-                for alt in 1..d.enabled.len() {
-                    let c = cost + usize::from(d.preemptible);
-                    if c > bound {
-                        continue;
-                    }
-                    let mut p = choices[..i].to_vec();
-                    p.push(alt);
-                    if is_root {
-                        let mine = top_branch_idx % shard.1 == shard.0;
-                        top_branch_idx += 1;
-                        if !mine {
-                            continue;
+                let c = cost + usize::from(d.preemptible);
+                if c <= bound {
+                    for alt in 1..d.enabled.len() {
+                        if is_root {
+                            let mine = top_branch_idx % shard.1 == shard.0;
+                            top_branch_idx += 1;
+                            if !mine {
+                                continue;
+                            }
                         }
+                        queues[c].push_back((choices.clone(), i, alt));
                     }
-                    new_items.push((p, false));
                 }
             }
             if d.preemptible && d.chosen != 0 {
                 cost += 1;
             }
         }
-        // explore shallow deviations first (simplest-first): push in reverse so the earliest is popped first
-        for it in new_items.into_iter().rev() {
-            stack.push(it);
-        }
+    }
+    if !stats.capped && !stopped {
+        stats.completed_bound = Some(bound);
     }
     stats
 }
